@@ -3,6 +3,8 @@
 // cross-node call; after the attempt (and its retries) ended and the ring had time to quiesce, every
 // previously acknowledged key must be readable through every remaining node and every remaining node
 // must be Active again.
+// Second family (window.go): no transport fault - the leave is refused because the leaver's successor is
+// locked for a join in flight behind the leaver; the join concludes before the retry (same oracle).
 package main
 
 import (
